@@ -427,6 +427,88 @@ func (c *c20) one(i int) {
 	}
 }
 
+// series: one factory builds several messages before any of them is converted; each must still read back as built
+// (a message must not share mutable storage with the factory or with its siblings).
+func (c *c20) series() {
+	c.lenMode = c.rng.Intn(8)
+	inst, h := c.u64(), c.u64()
+	me := c.bytesN(64)
+	f, km := c.factory(inst, me, c.u64())
+	H := primitives.BlockHeight(h)
+	type item struct {
+		kind int
+		v    uint64
+		hash []byte
+		blk  *spi.Blk
+		m    interfaces.ConsensusMessage
+		fix  *preparedFix
+	}
+	var items []*item
+	n := 2 + c.rng.Intn(5)
+	for k := 0; k < n; k++ {
+		it := &item{kind: c.rng.Intn(4), v: c.u64(), hash: c.bytesN(48)}
+		if k > 0 && c.rng.Intn(2) == 0 {
+			it.kind = items[k-1].kind // the same kind twice in a row is the interesting case
+		}
+		V := primitives.View(it.v)
+		switch it.kind {
+		case 0:
+			it.blk = &spi.Blk{H: h, Body: fmt.Sprintf("s%d", k)}
+			it.m = f.CreatePreprepareMessage(H, V, it.blk, it.hash)
+		case 1:
+			it.m = f.CreatePrepareMessage(H, V, it.hash)
+		case 2:
+			it.m = f.CreateCommitMessage(H, V, it.hash)
+		case 3:
+			it.fix = c.prepared(inst, h, c.rng.Intn(4))
+			it.blk = it.fix.blk
+			it.m = f.CreateViewChangeMessage(H, V, it.fix.pm)
+		}
+		items = append(items, it)
+	}
+	for k, it := range items {
+		what := fmt.Sprintf("message %d of %d built by one factory (%s)", k+1, n, []string{"PREPREPARE", "PREPARE", "COMMIT", "VIEW_CHANGE"}[it.kind])
+		d := c.roundTrip(what, it.m, km, []ref.MT{ref.PP, ref.P, ref.C, ref.VC}[it.kind], inst, h, it.v, me, it.blk)
+		if d == nil {
+			continue
+		}
+		if it.kind < 3 && !bytes.Equal(d.Hash, it.hash) {
+			c.bad("hash-changed", what)
+		}
+		if it.kind == 3 && d.Vote != nil && d.Vote.Proof != nil {
+			c.checkProof(what, d.Vote.Proof, it.fix, inst, h, km)
+		}
+	}
+	// a prepared proof assembled from PREPAREs that one member's factory built one after the other (different views): the
+	// proof for the earlier one must still be the earlier one
+	if c.rng.Intn(2) == 0 {
+		leader := c.bytesN(20)
+		fl, _ := c.factory(inst, leader, 1)
+		id := append(c.bytesN(20), 7)
+		fp, _ := c.factory(inst, id, 1)
+		v1, v2 := c.u64(), c.u64()
+		h1, h2 := c.bytesN(32), c.bytesN(32)
+		blk := &spi.Blk{H: h, Body: "series"}
+		pp1 := fl.CreatePreprepareMessage(H, primitives.View(v1), blk, h1)
+		p1 := fp.CreatePrepareMessage(H, primitives.View(v1), h1)
+		sig1 := append([]byte{}, p1.Content().Sender().Signature()...)
+		_ = fl.CreatePreprepareMessage(H, primitives.View(v2), blk, h2)
+		_ = fp.CreatePrepareMessage(H, primitives.View(v2), h2)
+		fix := &preparedFix{leader: leader, ppSig: pp1.Content().Sender().Signature(), hash: h1, view: v1, blk: blk, ids: [][]byte{id}, sigs: [][]byte{sig1}}
+		fix.pm = &preparedmessages.PreparedMessages{PreprepareMessage: pp1, PrepareMessages: []*interfaces.PrepareMessage{p1}}
+		vcm := f.CreateViewChangeMessage(H, primitives.View(v2), fix.pm)
+		d := c.roundTrip("VIEW_CHANGE with a proof from messages built before later ones of the same factories", vcm, km, ref.VC, inst, h, v2, me, blk)
+		if d != nil && d.Vote != nil {
+			if d.Vote.Proof == nil {
+				c.bad("nested-proof-lost", "series")
+			} else {
+				c.checkProof("VIEW_CHANGE with a proof from messages built before later ones of the same factories", d.Vote.Proof, fix, inst, h, km)
+			}
+		}
+	}
+	c.distinct[fmt.Sprintf("series|%d", n)] = true
+}
+
 // blockProofs: proofs generated from commit messages carry the commits' fields and signatures.
 func (c *c20) blockProof() {
 	c.lenMode = c.rng.Intn(8)
@@ -483,16 +565,27 @@ func (c *c20) blockProof() {
 func CheckC20(run *harness.Run) int {
 	c := &c20{byRule: map[string]int{}, distinct: map[string]bool{}, rng: rand.New(rand.NewSource(run.Seed*15485863 + 20))}
 	n := run.Pick(30000, 1500000)
+	guard := func(what string, f func()) {
+		defer func() {
+			if r := recover(); r != nil {
+				c.bad("panic-while-building-or-reading-messages", fmt.Sprintf("%s: %v", what, r))
+			}
+		}()
+		f()
+	}
 	for i := 0; i < n; i++ {
-		c.one(i)
+		guard("single message", func() { c.one(i) })
 		if i%10 == 0 {
-			c.blockProof()
+			guard("block proof", c.blockProof)
+		}
+		if i%7 == 3 {
+			guard("series of messages of one factory", c.series)
 		}
 	}
 	cov := map[string]interface{}{
 		"evaluations":            c.evals,
 		"distinct_nontrivial":    len(c.distinct),
-		"rule":                   "messages built by the real MessageFactory with generated values: instance / height / view over the 64-bit range (boundaries 2^31, 2^32, 2^63, 2^64-1), ids / hashes of 0..256 arbitrary bytes, signatures and shares of 0..256 bytes (content-dependent length), 0..20 prepare senders and 0..20 votes with/without proofs and blocks; converted to raw, copied into a buffer of another capacity, parsed back and compared field by field with the generator's inputs, signatures re-verified over the re-read bytes; block proofs from 1..20 commits. distinct = (type, nested sizes, sender length) classes",
+		"rule":                   "messages built by the real MessageFactory with generated values: instance / height / view over the 64-bit range (boundaries 2^31, 2^32, 2^63, 2^64-1), ids / hashes of 0..256 arbitrary bytes, signatures and shares of 0..256 bytes (content-dependent length), 0..20 prepare senders and 0..20 votes with/without proofs and blocks; converted to raw, copied into a buffer of another capacity, parsed back and compared field by field with the generator's inputs, signatures re-verified over the re-read bytes; block proofs from 1..20 commits; series of 2..6 messages built by one factory before any is converted (no shared storage between a factory's messages). distinct = (type, nested sizes, sender length) classes",
 		"samples":                c.samples,
 		"violations_by_rule":     c.byRule,
 		"largest_new_view_bytes": c.largeBytes,
